@@ -410,6 +410,17 @@ func (e *endpoint) Write(p tcpip.Payload, opts tcpip.WriteOptions) (uintptr, <-c
 		return 0, nil, err
 	}
 
+	// The datagram must fit the 16-bit UDP length field together with its
+	// header and, over IPv4, the 16-bit IP total length together with the IP
+	// header; otherwise those fields would silently wrap.
+	maxPayload := math.MaxUint16 - header.UDPMinimumSize
+	if route.NetProto == header.IPv4ProtocolNumber {
+		maxPayload -= header.IPv4MinimumSize
+	}
+	if len(v) > maxPayload {
+		return 0, nil, tcpip.ErrMessageTooLong
+	}
+
 	ttl := route.DefaultTTL()
 	// 如果是多播地址，设置ttl
 	if header.IsV4MulticastAddress(route.RemoteAddress) || header.IsV6MulticastAddress(route.RemoteAddress) {
